@@ -1,2 +1,2 @@
--- stub: replaced by the family's driver
-def main : IO Unit := IO.println "family cow: no driver yet"
+import PrimitivModel.Driver.CowDrv
+def main : IO Unit := Primitiv.Drv.CowDrv.main
